@@ -1,6 +1,7 @@
 from __future__ import annotations
 
 import builtins
+import contextlib
 import math
 from functools import partial
 from itertools import product
@@ -359,6 +360,13 @@ class PartialReduce(ArrayExpr):
                 meta = meta.sum()
             else:
                 meta = meta.reshape((0,) * len(self.chunks))
+
+        # like the classic engine: the requested dtype wins over what the
+        # function made of the empty meta (e.g. ``meta.sum()`` widens int32)
+        dtype = self.operand("dtype")
+        if dtype is not None:
+            with contextlib.suppress(AttributeError):
+                meta = meta.astype(dtype)
 
         return meta
 
